@@ -166,6 +166,9 @@ def run_mc(specs, tier):
 
 ENGINE_MC = [("EngineMC", "EngineMC.cfg", "hold", ("quick", "thorough")),
              ("EngineMC", "EngineMC_pinned.cfg", "violate", ("quick", "thorough")),
+             ("EngineMC", "EngineMC_live.cfg", "hold", ("quick", "thorough")),               # liveness: Check terminates without a time limit
+             ("EngineMC", "EngineMC_live_broken.cfg", "violate", ("quick", "thorough")),
+             ("EngineMC", "EngineMC_explicit_broken.cfg", "violate", ("quick", "thorough")),
              ("EngineMC", "EngineMC_big.cfg", "hold", ("thorough",))]
 
 
@@ -297,7 +300,7 @@ def c11(tier, seed, replay, keep):
 
 INV_EVENTS = ("example.begin,example.end,scen.begin,scen.end,run.begin,run.end,h.phase,h.once.begin,h.once.end,inv.begin,inv.end,cinv.begin,cinv.end,"
               "h.custom.begin,h.custom.end,cleanup.reg,cleanup.run,cleanup.end,ctx,sm.begin,sm.end,sm.inv.begin,sm.inv.end,"
-              "sm.action.begin,sm.action.end,draw,call,h.repeat.more,h.action.res,h.action.none,tb.errorf,fuzz.begin,fuzz.end,harness.done")
+              "sm.action.begin,sm.action.end,draw,call,h.repeat.more,h.action.res,h.action.none,h.overrun,tb.errorf,fuzz.begin,fuzz.end,harness.done")
 INV_CFG = """SPECIFICATION Spec
 CONSTANTS
   Property = "%s"
@@ -386,7 +389,7 @@ def c17(tier, seed, replay, keep):
     return engine_check("C17", tier, seed, replay, scen.c17, rule_ff, "4/C17", ASSUME_COMMON, keep)
 
 
-STREAM_EVENTS = ("hang,sm.action.begin,sm.action.end,cinv.begin,cinv.end,scen.begin,scen.end,run.begin,run.end,h.phase,h.ff.load,h.fuzz.buf,fuzz.begin,fuzz.end,h.bits,h.overrun,"
+STREAM_EVENTS = ("hang,h.action.none,sm.action.begin,sm.action.end,cinv.begin,cinv.end,scen.begin,scen.end,run.begin,run.end,h.phase,h.ff.load,h.fuzz.buf,fuzz.begin,fuzz.end,h.bits,h.overrun,"
                  "h.prune.begin,h.prune.end,draw,call,inv.begin,inv.end,h.once.begin,h.once.end,harness.done")
 STREAM_MC = [("Stream", "StreamMC.cfg", "hold", ("quick", "thorough")),
              ("Stream", "StreamMC_pinned.cfg", "violate", ("quick", "thorough"))]
